@@ -67,8 +67,10 @@ Definition c08_host_triplet_case (u spec got : text) : bool :=
      end
   && text_eqb (recompose (mkFive (f_scheme g) (f_auth s) (f_path g) (f_query g) (f_frag g))) spec.
 
+(* D14: the normal form of a host-less absolute path begins with "//" and is written without guard *)
 Definition c08_shape (u spec got : text) : N :=
-  if c08_rel_cancels u spec got then 71
+  if c06_unguarded_dslash spec got then 14
+  else if c08_rel_cancels u spec got then 71
   else if c08_rel_exposes_empty u spec got then 73
   else if c08_rel_exposes_colon u spec got then 72
   else if c08_host_triplet_case u spec got then 3
